@@ -5,6 +5,8 @@ invariants of the graph, keeps every connection of every merged kernel among the
 corresponding operand, and a kernel all of whose connections are possible is decodable. Core Lean only. -/
 namespace SnaxVerif.Phs
 
+variable [Variant]
+
 /-! ### mux trees -/
 
 def srcMuxes : Src → List Nat
